@@ -287,6 +287,9 @@ class Model(object):
         d = self.d
         dom = self.dom
         name = op[0]
+        if name in _WRITES_WITH_ARGS and _has_ood(op):
+            # a write with an unusable key or value: TypeError, no change
+            raise _ModelExc("TypeError")
         if name == "set":
             d[op[1]] = op[2]
             return None
@@ -444,6 +447,45 @@ class Model(object):
 
 class _ModelExc(Exception):
     pass
+
+
+_WRITES_WITH_ARGS = ("set", "setdefault", "insert", "update", "add",
+                     "sinsert", "supdate")
+
+
+def _is_ood(x):
+    return isinstance(x, list) and len(x) == 2 and x[0] == "ood"
+
+
+def _has_ood(op):
+    name = op[0]
+    if name in ("set", "setdefault", "insert"):
+        return _is_ood(op[1]) or _is_ood(op[2])
+    if name in ("add", "sinsert"):
+        return _is_ood(op[1])
+    if name == "update":
+        return any(_is_ood(k) or _is_ood(v) for k, v in op[1])
+    if name == "supdate":
+        return any(_is_ood(k) for k in op[1])
+    return False
+
+
+def bad_key_spec(fam):
+    """an argument no container of the family accepts as a key (TypeError
+    from every writing entry point of both implementations)"""
+    if fam[0] in "IULQ":
+        return ["ood", "str"]
+    if fam[0] == "f":
+        return ["ood", "bytes3"]
+    return ["ood", "obj"]
+
+
+def bad_value_spec(fam):
+    if fam[1] == "O":
+        return None
+    if fam[1] == "s":
+        return ["ood", "bytes3"]
+    return ["ood", "str"]
 
 
 def same_value(a, b):
